@@ -239,7 +239,24 @@ func evalC13(op string, args []string) string {
 				for i := range region {
 					region[i] ^= 0xff
 				}
-				flag("parseattrs-result-aliases-buffer", showAttributes(as) != before)
+				aliased := showAttributes(as) != before
+				// … and the other way round: appending to a value (also an EMPTY one) stays inside the value's own
+				// allocation — its capacity must not reach into the buffer it was parsed from
+				regionWas := append([]byte{}, region...)
+				for _, a := range as {
+					v := a.Attribute
+					if v == nil {
+						continue
+					}
+					ext := v[:cap(v)]
+					for j := len(v); j < len(ext); j++ {
+						ext[j] ^= 0xff
+					}
+				}
+				if !bytes.Equal(region, regionWas) {
+					aliased = true
+				}
+				flag("parseattrs-result-aliases-buffer", aliased)
 			} else {
 				flag("parseattrs-result-aliases-buffer", false)
 			}
@@ -254,7 +271,23 @@ func evalC13(op string, args []string) string {
 		for i := range b {
 			b[i] ^= 0xff
 		}
-		flag("parsed-packet-aliases-buffer", snapshot(p) != s0)
+		pAliased := snapshot(p) != s0
+		{
+			bWas := append([]byte{}, b[:cap(b)]...)
+			for _, a := range p.Attributes {
+				if v := a.Attribute; v != nil {
+					ext := v[:cap(v)]
+					for j := len(v); j < len(ext); j++ {
+						ext[j] ^= 0xff
+					}
+				}
+			}
+			if !bytes.Equal(b[:cap(b)], bWas) {
+				pAliased = true
+				copy(b[:cap(b)], bWas)
+			}
+		}
+		flag("parsed-packet-aliases-buffer", pAliased)
 		for i := range b {
 			b[i] ^= 0xff
 		}
@@ -345,9 +378,10 @@ func evalC13(op string, args []string) string {
 		flag("decoders-mutate-packet", bad)
 		flag("decoder-results-alias-packet", aliased)
 		snap := snapshot(p)
-		debug.Dump(io.Discard, &debug.Config{Dictionary: debug.IncludedDictionary}, p)
-		d1 := debug.DumpString(&debug.Config{Dictionary: debug.IncludedDictionary}, p)
-		d2 := debug.DumpString(&debug.Config{Dictionary: debug.IncludedDictionary}, p)
+		// (ONE Config value for the whole process, as a program has: it is configuration, dumping does not write to it)
+		debug.Dump(io.Discard, sharedDumpConfig, p)
+		d1 := debug.DumpString(sharedDumpConfig, p)
+		d2 := debug.DumpString(sharedDumpConfig, p)
 		for _, wd := range wildDictionaries() {
 			if debug.DumpString(&debug.Config{Dictionary: wd}, p) != debug.DumpString(&debug.Config{Dictionary: wd}, p) {
 				d2 = d1 + "?"
@@ -498,9 +532,15 @@ func genC13(g *Gen, tier string, emit func(op string, args ...string)) {
 			t := g.Pick(1, 2, 26, 255, 0, -1, 256, 300, 511, 65536+1, 1<<32+5)
 			as = append(as, avp{t, g.RandBytes(g.Pick(0, 1, 4, 18, 253, 254))})
 		}
-		emit("pureencode", itoa(g.Pick(1, 2, 4, 5, 11, 12, 40, 300, -1)), itoa(g.Intn(256)), hx(g.RandBytes(16)), hx(g.RandBytes(g.Pick(0, 1, 8))), showAVPs(as))
+		auth := g.RandBytes(16)
+		if g.Chance(1, 4) {
+			auth = make([]byte, 16) // a packet built by hand has no Request Authenticator yet
+		}
+		emit("pureencode", itoa(g.Pick(1, 2, 4, 5, 11, 12, 40, 300, -1)), itoa(g.Intn(256)), hx(auth), hx(g.RandBytes(g.Pick(0, 1, 8))), showAVPs(as))
 	}
 }
+
+var sharedDumpConfig = &debug.Config{Dictionary: debug.IncludedDictionary}
 
 // wildDictionaries: three dictionaries that together give every attribute number 0..255 every attribute
 // type, with and without has_tag / encrypt / concat / size flags and with VALUEs.
